@@ -7,9 +7,12 @@
 (*   example accepts "HTTP": the comparison ignores case.  The code uses      *)
 (*   strings.EqualFold, i.e. Unicode simple case folding, under which the     *)
 (*   letters of the five schemes have exactly one non-ASCII twin: U+017F      *)
-(*   LATIN SMALL LETTER LONG S folds to "s" (the documentation is silent, the *)
-(*   specification says what the code does; token LONGS).  U+212A KELVIN      *)
-(*   SIGN folds to "k", which no scheme contains (token KELVIN).              *)
+(*   LATIN SMALL LETTER LONG S folds to "s" (token LONGS).  U+212A KELVIN     *)
+(*   SIGN folds to "k", which no scheme contains (token KELVIN).  The         *)
+(*   documentation is silent about such look-alikes: the specification says   *)
+(*   what the code does (IsKind, Unicode folding) and also what an ASCII-only *)
+(*   comparison would say (IsKindA); where the two differ the binding accepts *)
+(*   either answer, but the same one from IsValidXURLScheme and ValidateXURL. *)
 (*                                                                            *)
 (*   "ValidateXURL returns nil if u is a valid X URL": nil for a non-nil URL  *)
 (*   whose scheme is valid for X; nothing but the scheme is looked at (TODO   *)
@@ -55,6 +58,8 @@ LowTok(t) == IF t \in UpperLetters THEN (CHOOSE p \in Pairs : p[2] = t)[1] ELSE 
 Map(f(_), s) == [i \in 1..Len(s) |-> f(s[i])]
 
 EqFold(s, t) == Len(s) = Len(t) /\ \A i \in 1..Len(s) : FoldTok(s[i]) = t[i]
+(* ASCII-only folding: LONGS and KELVIN are just other characters. *)
+EqFoldA(s, t) == Len(s) = Len(t) /\ \A i \in 1..Len(s) : LowTok(s[i]) = t[i]
 
 IsFileScheme(s) == EqFold(s, SchemeFile)
 IsHTTPScheme(s) == EqFold(s, SchemeHTTP) \/ EqFold(s, SchemeHTTPS)      \* IsValidHTTPURLScheme
@@ -62,6 +67,9 @@ IsGRPCScheme(s) == EqFold(s, SchemeGRPC) \/ EqFold(s, SchemeGRPCS)      \* IsVal
 
 Kinds == {"file", "http", "grpc"}
 IsKind(k, s) == CASE k = "file" -> IsFileScheme(s) [] k = "http" -> IsHTTPScheme(s) [] k = "grpc" -> IsGRPCScheme(s)
+IsKindA(k, s) == CASE k = "file" -> EqFoldA(s, SchemeFile)
+                   [] k = "http" -> EqFoldA(s, SchemeHTTP) \/ EqFoldA(s, SchemeHTTPS)
+                   [] k = "grpc" -> EqFoldA(s, SchemeGRPC) \/ EqFoldA(s, SchemeGRPCS)
 
 (* Pieces of the error texts. *)
 Label == [file |-> "file", http |-> "http(s)", grpc |-> "grpc(s)"]
@@ -71,6 +79,10 @@ Wants == [file |-> <<"file">>, http |-> <<"http", "https">>, grpc |-> <<"grpc", 
 Validate(k, u) ==
     IF u.isnil THEN [ok |-> FALSE, err |-> "novalue", label |-> Label[k], wants |-> Wants[k]]
     ELSE IF IsKind(k, u.scheme) THEN [ok |-> TRUE, err |-> "none", label |-> Label[k], wants |-> Wants[k]]
+    ELSE [ok |-> FALSE, err |-> IF k = "file" THEN "badvalue" ELSE "badenum", label |-> Label[k], wants |-> Wants[k]]
+(* the same with ASCII-only folding *)
+ValidateA(k, u) ==
+    IF u.isnil \/ IsKindA(k, u.scheme) = IsKind(k, u.scheme) THEN Validate(k, u)
     ELSE [ok |-> FALSE, err |-> IF k = "file" THEN "badvalue" ELSE "badenum", label |-> Label[k], wants |-> Wants[k]]
 
 ----------------------------------------------------------------------------
@@ -114,6 +126,10 @@ ValidateIffScheme == \A k \in Kinds :
     /\ Validate(k, U).ok <=> (~isnil /\ IsKind(k, s))
     /\ Validate(k, U).ok <=> (Validate(k, U).err = "none")
     /\ isnil <=> (Validate(k, U).err = "novalue")
+
+(* ASCII-only folding accepts less, and differs only through LONGS. *)
+AsciiIsStricter == \A k \in Kinds : /\ IsKindA(k, s) => IsKind(k, s)
+                                    /\ (IsKind(k, s) /\ ~IsKindA(k, s)) => \E i \in 1..Len(s) : s[i] = "LONGS"
 
 (* A valid scheme has the length of one of the constants: nothing is trimmed  *)
 (* or ignored.                                                                *)
